@@ -1,1 +1,11 @@
 //! Verification hooks for the `mss` domain (`--cfg litep2p_verif` only).
+//!
+//! The `multistream_select` module is crate-private; its items are `pub` inside it,
+//! so they can be re-exported unchanged for the out-of-tree conformance harness.
+
+pub use crate::multistream_select::{
+    dialer_select_proto, listener_select_proto, webrtc_listener_negotiate, DialerSelectFuture,
+    HandshakeResult, HeaderLine, ListenerSelectFuture, ListenerSelectResult, Message, Negotiated,
+    NegotiatedComplete, NegotiationError, Protocol, ProtocolError, Version, WebRtcDialerState,
+    PROTO_MULTISTREAM_1_0,
+};
